@@ -3,7 +3,10 @@
 //!
 //!   structs run --seed S --cases N --trace-file F     generate N cases, run them, write all traces
 //!                                                     (each starts with `reset`) into F
-//!   structs one --case-seed X                         print the trace of the single case X
+//!   structs one --case-seed X [--keep i,j,…] [--trace]   run the single case X (only the listed history ops), print the
+//!                                                     program, the ops with their results and the oracle verdicts
+//!                                                     (`--trace`: the hook trace instead)
+//!   structs demo-unwind                               reproducer: panic after an identity-changed update (DESIGN.md B.8)
 //!
 //! The harness tells the driver what it cannot see from inside salsa through `note` lines:
 //!   note t0 case <n> seed <x>                 first line after `reset`
@@ -13,6 +16,22 @@
 //!   note t0 eq-panic <n>                      the injected `PartialEq` panic; n tracked fields were
 //!                                             already compared (and updated) in this `update`
 //!   note t0 caught <class>                    the operation ended with a caught panic
+//!
+//! PROPERTY ORACLE (on the real results, independent of the hooks; `STRUCTS-FAIL case=<n> seed=<x> key=<key> …` lines and a
+//! `STRUCTS-SUMMARY … failures=<failing cases>` line):
+//!   duplicate-id  two `new` calls of one execution returned the same id, or an id (index, generation) was handed out for a
+//!                 struct other than the one it was handed out for before (other creator / type / hash class / occurrence / k)
+//!   readback      a field read through the returned handle (right after `new`, again at the end of the creator's body,
+//!                 and at top level for the result of a creator request) is not the value passed to `new`
+//!   value         a reader result / a creator's list of structs differs from the reference interpreter on the current inputs
+//!   stale-memo    `on_ts(t)` / `on_us(u)` called right after `new` returned something else than the reference for the new fields
+//!   id-changed    the creation with the same (type, hash class, occurrence) and the same identity value as in the creator's
+//!                 previous completed execution got another id (not counted: a previous id at generation u32::MAX)
+//!   abort-after-identity-change-stale-generation
+//!                 any of the above AFTER a request was aborted by a panic during or after an identity-changed update
+//!                 (recognised from the trace: `idchg=1`, or `update_unwind` without an injected PartialEq panic): listed finding kf4
+//! The oracle is switched off for the rest of a case by the first `LeakRead` (a handle used outside its revision is a client error).
+//!
 //! Values: identity field `k` (type `CK`, hash class `k % hmod`: `hmod = 1` is a constant hash),
 //! tracked fields `a`, `b` (type `PV`, user `PartialEq` that can be made to panic).
 use salsa::plumbing::{AsId, FromId};
@@ -197,6 +216,232 @@ fn gen_case(r: &mut Rng) -> Case {
 }
 
 // ---------------------------------------------------------------------------------------------
+// property oracle: reference interpreter + id bookkeeping
+
+fn ev_ref(e: Ex, inputs: &[u32]) -> u32 {
+    match e {
+        Ex::C(c) => c % 4,
+        Ex::In(i) => inputs[i] % 4,
+        Ex::InPlus(i, c) => (inputs[i] + c) % 4,
+    }
+}
+
+/// the structs creator `c` makes on the given inputs: (type, k, a, b, call)
+fn ref_creator(p: &Prog, inputs: &[u32], c: usize) -> Vec<(u8, u32, u32, u32, bool)> {
+    let mut out = vec![];
+    for s in &p.creators[c].steps {
+        if let Step::Mk(m) = s {
+            if let Some((i, want)) = m.cond {
+                if inputs[i] % 2 != want {
+                    continue;
+                }
+            }
+            let n = match m.rep {
+                Some(i) => inputs[i] % 3,
+                None => 1,
+            };
+            for j in 0..n {
+                out.push((m.ty, (ev_ref(m.k, inputs) + j * m.kstride) % 6, ev_ref(m.a, inputs), ev_ref(m.b, inputs), m.call));
+            }
+        }
+    }
+    out
+}
+
+fn ref_on_us(k: u32, a: u32) -> u32 {
+    a + k
+}
+
+fn ref_on_ts(p: &Prog, inputs: &[u32], k: u32, a: u32) -> u32 {
+    let mut r = a;
+    if let Some(i) = p.on_ts.reads_in {
+        r += inputs[i];
+    }
+    if let Some((n, kx, ax)) = p.on_ts.nested {
+        let n = (ev_ref(n, inputs) + k) % 3;
+        for j in 0..n {
+            if p.on_ts.call_on_us {
+                r += ref_on_us((ev_ref(kx, inputs) + j) % 6, ev_ref(ax, inputs));
+            }
+        }
+    }
+    r % 16
+}
+
+fn ref_reader(p: &Prog, inputs: &[u32], r: usize) -> u32 {
+    let rd = &p.readers[r];
+    let mut v = 0;
+    for (ty, k, a, b, _) in ref_creator(p, inputs, rd.creator) {
+        if ty == 0 {
+            if rd.fields & 1 != 0 {
+                v += a;
+            }
+            if rd.fields & 2 != 0 {
+                v += b;
+            }
+            if rd.fields & 4 != 0 {
+                v += k;
+            }
+            if rd.call {
+                v += ref_on_ts(p, inputs, k, a);
+            }
+        } else {
+            if rd.fields & 1 != 0 {
+                v += a;
+            }
+            if rd.call {
+                v += ref_on_us(k, a);
+            }
+        }
+    }
+    v % 64
+}
+
+#[derive(Clone, Copy, PartialEq, Eq, Hash, Debug)]
+enum FrameKey {
+    Creator(usize),
+    OnTs(salsa::Id),
+}
+
+/// one `new` call of an execution; `occ` = earlier creations of the same (type, hash class) in that execution
+#[derive(Clone, Copy, Debug)]
+struct Made {
+    ty: u8,
+    k: u32,
+    a: u32,
+    b: u32,
+    occ: u32,
+    id: salsa::Id,
+}
+
+#[derive(Default)]
+struct Oracle {
+    off: bool,
+    tainted: bool,
+    op_no: usize,
+    inputs: Vec<u32>,
+    stack: Vec<(FrameKey, Vec<Made>)>,
+    /// the creations of the last COMPLETED execution of a creator
+    last: std::collections::HashMap<FrameKey, Vec<Made>>,
+    /// id -> (creator, type, hash class, occurrence, k) it was handed out for
+    owner: std::collections::HashMap<salsa::Id, (FrameKey, u8, u32, u32, u32)>,
+    fails: Vec<(String, String)>,
+}
+
+impl Oracle {
+    fn fail(&mut self, key: &str, what: String) {
+        if self.off {
+            return;
+        }
+        let key = if self.tainted { "abort-after-identity-change-stale-generation" } else { key };
+        if self.fails.len() < 8 {
+            self.fails.push((key.to_string(), format!("op#{} {}", self.op_no, what)));
+        }
+    }
+}
+
+fn oracle(db: &dyn PDb) -> std::sync::MutexGuard<'_, Oracle> {
+    db.env().oracle.lock().unwrap_or_else(|e| e.into_inner())
+}
+
+/// pops the frame if the body unwinds (a completed body pops it itself in `frame_end`)
+struct FrameGuard<'a> {
+    db: &'a dyn PDb,
+    depth: usize,
+}
+
+impl Drop for FrameGuard<'_> {
+    fn drop(&mut self) {
+        oracle(self.db).stack.truncate(self.depth);
+    }
+}
+
+fn frame_begin<'a>(db: &'a dyn PDb, key: FrameKey) -> FrameGuard<'a> {
+    let mut o = oracle(db);
+    let depth = o.stack.len();
+    o.stack.push((key, vec![]));
+    FrameGuard { db, depth }
+}
+
+fn read_fields(db: &dyn PDb, m: &Made) -> (u32, u32, u32) {
+    if m.ty == 0 {
+        let t = Ts::from_id(m.id);
+        (t.k(db).0, t.a(db).0, t.b(db).0)
+    } else {
+        let u = Us::from_id(m.id);
+        (u.k(db).0, u.a(db).0, m.b)
+    }
+}
+
+fn check_readback(db: &dyn PDb, m: &Made, when: &str) {
+    if oracle(db).off {
+        return;
+    }
+    let got = read_fields(db, m);
+    if got != (m.k, m.a, m.b) {
+        oracle(db).fail(
+            "readback",
+            format!("{when}: struct {:?} (type {}) created with k={} a={} b={} reads k={} a={} b={}", m.id, m.ty, m.k, m.a, m.b, got.0, got.1, got.2),
+        );
+    }
+}
+
+/// bookkeeping + checks (a), (b) for the struct just returned by `new`
+fn made(db: &dyn PDb, ty: u8, k: u32, a: u32, b: u32, id: salsa::Id) {
+    let class = k % HMOD.with(|h| h.get());
+    let m = {
+        let mut o = oracle(db);
+        let Some((key, list)) = o.stack.last().cloned() else { return };
+        let occ = list.iter().filter(|x| x.ty == ty && x.k % HMOD.with(|h| h.get()) == class).count() as u32;
+        let m = Made { ty, k, a, b, occ, id };
+        if let Some(prev) = list.iter().find(|x| x.id == id) {
+            o.fail("duplicate-id", format!("two `new` calls of one execution of {key:?} returned {id:?}: (type {} k={}) and (type {ty} k={k})", prev.ty, prev.k));
+        }
+        let tuple = (key, ty, class, occ, k);
+        match o.owner.get(&id).copied() {
+            Some(t) if t != tuple => o.fail("duplicate-id", format!("{id:?} handed out for {tuple:?} was handed out for {t:?} before")),
+            Some(_) => {}
+            None => {
+                o.owner.insert(id, tuple);
+            }
+        }
+        o.stack.last_mut().unwrap().1.push(m);
+        m
+    };
+    check_readback(db, &m, "right after new");
+}
+
+/// end of a completed body: checks (b) again and (d), then records the execution
+fn frame_end(db: &dyn PDb) {
+    let Some((key, list)) = oracle(db).stack.last().cloned() else { return };
+    for m in &list {
+        check_readback(db, m, "at the end of the body");
+    }
+    let mut o = oracle(db);
+    if let Some(prev) = o.last.get(&key).cloned() {
+        for m in &list {
+            let class = |x: &Made| x.k % HMOD.with(|h| h.get());
+            if let Some(p) = prev.iter().find(|p| p.ty == m.ty && class(p) == class(m) && p.occ == m.occ) {
+                if p.k == m.k && p.id != m.id && p.id.generation() != u32::MAX {
+                    o.fail(
+                        "id-changed",
+                        format!("{key:?}: creation (type {} k={} occurrence {}) had {:?} in the previous execution and has {:?} now", m.ty, m.k, m.occ, p.id, m.id),
+                    );
+                }
+            }
+        }
+    }
+    o.last.insert(key, list);
+    o.stack.pop();
+}
+
+fn check_call(db: &dyn PDb, what: &str, id: salsa::Id, got: u32, want: u32) {
+    if got != want {
+        oracle(db).fail("stale-memo", format!("{what}({id:?}) = {got}, reference for the fields just passed to `new` = {want}"));
+    }
+}
+
+// ---------------------------------------------------------------------------------------------
 // salsa items
 
 struct DbEnv {
@@ -205,6 +450,7 @@ struct DbEnv {
     keys: OnceLock<Vec<Key>>,
     inject_body: AtomicI64,
     inject_event: AtomicI64,
+    oracle: std::sync::Mutex<Oracle>,
 }
 
 #[salsa::db]
@@ -320,16 +566,21 @@ fn ev(db: &dyn PDb, e: Ex) -> u32 {
 fn new_ts<'db>(db: &'db dyn PDb, k: u32, a: u32, b: u32) -> Ts<'db> {
     trace::note(&format!("new T {k} {a} {b}"));
     EQ_DONE.with(|d| d.set(0));
-    Ts::new(db, CK(k), PV(a), PV(b))
+    let t = Ts::new(db, CK(k), PV(a), PV(b));
+    made(db, 0, k, a, b, t.as_id());
+    t
 }
 
 fn new_us<'db>(db: &'db dyn PDb, k: u32, a: u32) -> Us<'db> {
     trace::note(&format!("new U {k} {a}"));
     EQ_DONE.with(|d| d.set(0));
-    Us::new(db, CK(k), PV(a))
+    let u = Us::new(db, CK(k), PV(a));
+    made(db, 1, k, a, 0, u.as_id());
+    u
 }
 
 fn body<'db>(db: &'db dyn PDb, key: Key) -> Out<'db> {
+    let _frame = frame_begin(db, FrameKey::Creator(key.idx(db) as usize));
     tick_body(db);
     let c = &db.env().prog.creators[key.idx(db) as usize];
     let mut out: Out<'db> = vec![];
@@ -364,7 +615,9 @@ fn body<'db>(db: &'db dyn PDb, key: Key) -> Out<'db> {
                             t.k(db);
                         }
                         if m.call {
-                            on_ts(db, t);
+                            let v = on_ts(db, t);
+                            let want = ref_on_ts(&db.env().prog, &oracle(db).inputs.clone(), k, a);
+                            check_call(db, "on_ts", t.as_id(), v, want);
                         }
                         out.push((Some(t), None));
                     } else {
@@ -373,7 +626,8 @@ fn body<'db>(db: &'db dyn PDb, key: Key) -> Out<'db> {
                             u.a(db);
                         }
                         if m.call {
-                            on_us(db, u);
+                            let v = on_us(db, u);
+                            check_call(db, "on_us", u.as_id(), v, ref_on_us(k, a));
                         }
                         out.push((None, Some(u)));
                     }
@@ -381,6 +635,7 @@ fn body<'db>(db: &'db dyn PDb, key: Key) -> Out<'db> {
             }
         }
     }
+    frame_end(db);
     out
 }
 
@@ -401,6 +656,7 @@ fn call_creator<'db>(db: &'db dyn PDb, c: usize) -> Out<'db> {
 
 #[salsa::tracked(returns(copy))]
 fn on_ts<'db>(db: &'db dyn PDb, t: Ts<'db>) -> u32 {
+    let _frame = frame_begin(db, FrameKey::OnTs(t.as_id()));
     tick_body(db);
     let p = &db.env().prog.on_ts;
     let mut r = t.a(db).0;
@@ -410,12 +666,16 @@ fn on_ts<'db>(db: &'db dyn PDb, t: Ts<'db>) -> u32 {
     if let Some((n, k, a)) = p.nested {
         let n = (ev(db, n) + t.k(db).0) % 3;
         for j in 0..n {
-            let u = new_us(db, (ev(db, k) + j) % 6, ev(db, a));
+            let (uk, ua) = ((ev(db, k) + j) % 6, ev(db, a));
+            let u = new_us(db, uk, ua);
             if p.call_on_us {
-                r += on_us(db, u);
+                let v = on_us(db, u);
+                check_call(db, "on_us", u.as_id(), v, ref_on_us(uk, ua));
+                r += v;
             }
         }
     }
+    frame_end(db);
     r % 16
 }
 
@@ -477,7 +737,21 @@ fn panic_class(p: &(dyn std::any::Any + Send)) -> String {
     }
 }
 
-fn run_case(case: &Case, case_no: u64, seed: u64) -> Vec<String> {
+struct CaseRun {
+    /// the hook trace (starts with `reset`)
+    lines: Vec<String>,
+    /// oracle verdicts: (key, what)
+    fails: Vec<(String, String)>,
+    /// one line per executed history op: the op and its observable result
+    log: Vec<String>,
+}
+
+/// `keep`: run only the history ops with these indices (shrinking / replay)
+fn ora(env: &DbEnv) -> std::sync::MutexGuard<'_, Oracle> {
+    env.oracle.lock().unwrap_or_else(|e| e.into_inner())
+}
+
+fn run_case(case: &Case, case_no: u64, seed: u64, keep: Option<&[usize]>) -> CaseRun {
     HMOD.with(|h| h.set(case.prog.hmod));
     EQ_TICK.with(|t| t.set(-1));
     let env = Arc::new(DbEnv {
@@ -486,6 +760,7 @@ fn run_case(case: &Case, case_no: u64, seed: u64) -> Vec<String> {
         keys: OnceLock::new(),
         inject_body: AtomicI64::new(-1),
         inject_event: AtomicI64::new(-1),
+        oracle: std::sync::Mutex::new(Oracle { inputs: case.init.iter().map(|x| x.0).collect(), ..Default::default() }),
     });
     let env2 = env.clone();
     let storage = salsa::Storage::new(Some(Box::new(move |e: salsa::Event| {
@@ -521,17 +796,27 @@ fn run_case(case: &Case, case_no: u64, seed: u64) -> Vec<String> {
     env.keys.set(keys.clone()).ok();
     // ids captured from the last creator result (leaked across revisions on purpose)
     let mut leaked: Vec<(u8, salsa::Id)> = vec![];
-    for op in &case.ops {
+    let mut lines = vec!["reset".to_string()];
+    let mut log = vec![];
+    for (op_no, op) in case.ops.iter().enumerate() {
+        if keep.is_some_and(|k| !k.contains(&op_no)) {
+            continue;
+        }
         trace::note(&format!("op {op:?}"));
+        ora(&env).op_no = op_no;
+        let mut result = String::new();
         let res = std::panic::catch_unwind(std::panic::AssertUnwindSafe(|| match op {
-            Op::Set(i, v, d) => match d {
-                Some(d) => {
-                    ins[*i].set_v(&mut db).with_durability(DURS[*d as usize]).to(*v);
+            Op::Set(i, v, d) => {
+                ora(&env).inputs[*i] = *v;
+                match d {
+                    Some(d) => {
+                        ins[*i].set_v(&mut db).with_durability(DURS[*d as usize]).to(*v);
+                    }
+                    None => {
+                        ins[*i].set_v(&mut db).to(*v);
+                    }
                 }
-                None => {
-                    ins[*i].set_v(&mut db).to(*v);
-                }
-            },
+            }
             Op::Bump => db.synthetic_write(Durability::LOW),
             Op::GetC(c) => {
                 let out = call_creator(&db, *c);
@@ -543,15 +828,43 @@ fn run_case(case: &Case, case_no: u64, seed: u64) -> Vec<String> {
                         _ => unreachable!(),
                     })
                     .collect();
+                // (c): the list of structs and their fields against the reference interpreter
+                let inputs = ora(&env).inputs.clone();
+                let want = ref_creator(&case.prog, &inputs, *c);
+                let off = ora(&env).off;
+                let got: Vec<(u8, u32, u32, u32)> = if off {
+                    vec![]
+                } else {
+                    out.iter()
+                        .map(|(t, u)| match (t, u) {
+                            (Some(t), _) => (0u8, t.k(&db).0, t.a(&db).0, t.b(&db).0),
+                            (_, Some(u)) => (1u8, u.k(&db).0, u.a(&db).0, 0),
+                            _ => unreachable!(),
+                        })
+                        .collect()
+                };
+                let want: Vec<(u8, u32, u32, u32)> = want.iter().map(|x| (x.0, x.1, x.2, if x.0 == 0 { x.3 } else { 0 })).collect();
+                result = format!("creator {c} = {:?} ids {:?}", got, leaked.iter().map(|x| x.1).collect::<Vec<_>>());
+                if !off && got != want {
+                    ora(&env).fail("value", format!("creator {c} returned structs (type, k, a, b) {got:?}, reference {want:?}"));
+                }
             }
             Op::GetR(r) => {
-                reader(&db, keys[*r]);
+                let v = reader(&db, keys[*r]);
+                trace::note(&format!("result reader {r} = {v}"));
+                let want = ref_reader(&case.prog, &ora(&env).inputs.clone(), *r);
+                result = format!("reader {r} = {v}");
+                if v != want {
+                    ora(&env).fail("value", format!("reader {r} = {v}, reference {want}"));
+                }
             }
             Op::InjectEq(n) => EQ_TICK.with(|t| t.set(*n as i64)),
             Op::InjectEv(n) => env.inject_event.store(*n as i64, Ordering::Relaxed),
             Op::InjectBody(n) => env.inject_body.store(*n as i64, Ordering::Relaxed),
             Op::Age(g) => salsa::verif_hooks::structs::age_free_lists(&db, *g),
             Op::LeakRead(j, f) => {
+                // a handle used outside its revision is a client error: no verdicts from here on
+                ora(&env).off = true;
                 if let Some((ty, id)) = leaked.get(*j).copied() {
                     if ty == 0 {
                         let t = Ts::from_id(id);
@@ -583,16 +896,30 @@ fn run_case(case: &Case, case_no: u64, seed: u64) -> Vec<String> {
             env.inject_event.store(-1, Ordering::Relaxed);
             env.inject_body.store(-1, Ordering::Relaxed);
         }
+        let panicked = res.is_err();
         if let Err(p) = res {
+            result = format!("panic:{}", panic_class(&*p));
             trace::note(&format!("caught {}", panic_class(&*p)));
         }
+        let chunk = trace::take();
+        if panicked {
+            ora(&env).stack.clear();
+            // listed finding kf4: a request aborted by a panic during or after an identity-changed update
+            let idchg = chunk.iter().any(|l| l.starts_with("ts update ") && l.contains(" idchg=1 "));
+            let unwind_in_clear = chunk.iter().any(|l| l.starts_with("ts update_unwind ")) && !chunk.iter().any(|l| l.contains(" eq-panic "));
+            if idchg || unwind_in_clear {
+                ora(&env).tainted = true;
+            }
+        }
+        log.push(format!("op#{op_no} {op:?} => {}", if result.is_empty() { "ok" } else { &result }));
+        lines.extend(chunk.into_iter().filter(|l| l.starts_with("ts ") || l.starts_with("note ") || l.starts_with("memo publish ")));
     }
     trace::disable();
     trace::set_struct_tracing(false);
-    let mut lines = vec!["reset".to_string()];
     lines.extend(trace::take().into_iter().filter(|l| l.starts_with("ts ") || l.starts_with("note ") || l.starts_with("memo publish ")));
+    let fails = std::mem::take(&mut ora(&env).fails);
     drop(db);
-    lines
+    CaseRun { lines, fails, log }
 }
 
 /// histogram of the protocol events hit (printed in the summary line)
@@ -661,11 +988,28 @@ fn main() {
             let mut f = std::io::BufWriter::new(std::fs::File::create(path).expect("create trace file"));
             let mut top = Rng::new(seed);
             let (mut hist, mut total, mut ts_lines) = (Hist::default(), 0u64, 0u64);
+            let (mut failing, mut by_key, mut printed) = (0u64, std::collections::BTreeMap::<String, u64>::new(), 0);
             let mut distinct = std::collections::HashSet::new();
             for n in 0..cases {
                 let cs = top.next();
                 let case = gen_case(&mut Rng::new(cs));
-                let lines = run_case(&case, n, cs);
+                let run = run_case(&case, n, cs, None);
+                if !run.fails.is_empty() {
+                    failing += 1;
+                    // one line per distinct key of the case
+                    let mut seen = vec![];
+                    for (key, what) in &run.fails {
+                        if !seen.contains(key) {
+                            seen.push(key.clone());
+                            *by_key.entry(key.clone()).or_insert(0) += 1;
+                            if printed < 40 {
+                                printed += 1;
+                                println!("STRUCTS-FAIL case={n} seed={cs} key={key} {what}");
+                            }
+                        }
+                    }
+                }
+                let lines = run.lines;
                 hist.scan(&lines);
                 total += lines.len() as u64;
                 ts_lines += lines.iter().filter(|l| l.starts_with("ts ")).count() as u64;
@@ -682,13 +1026,60 @@ fn main() {
             f.flush().unwrap();
             let h: Vec<String> = hist.0.iter().map(|(k, v)| format!("{k}={v}")).collect();
             println!("STRUCTS cases={cases} distinct={} lines={total} ts_lines={ts_lines} hist: {}", distinct.len(), h.join(" "));
+            let k: Vec<String> = by_key.iter().map(|(k, v)| format!("{k}={v}")).collect();
+            println!("STRUCTS-SUMMARY cases={cases} failures={failing} by_key: {}", if k.is_empty() { "-".to_string() } else { k.join(" ") });
         }
         "one" => {
             let cs = args.num("--case-seed", 1);
             let case = gen_case(&mut Rng::new(cs));
-            for l in run_case(&case, 0, cs) {
-                println!("{l}");
+            let keep: Option<Vec<usize>> = args.get("--keep").map(|s| s.split(',').filter_map(|x| x.parse().ok()).collect());
+            let run = run_case(&case, 0, cs, keep.as_deref());
+            if args.flag("--trace") {
+                for l in &run.lines {
+                    println!("{l}");
+                }
+            } else {
+                println!("case-seed {cs} hmod={} inputs(value, durability)={:?}", case.prog.hmod, case.init);
+                println!("on_ts {:?}", case.prog.on_ts);
+                for (i, c) in case.prog.creators.iter().enumerate() {
+                    println!("creator {i} {c:?}");
+                }
+                for (i, c) in case.prog.readers.iter().enumerate() {
+                    println!("reader {i} {c:?}");
+                }
+                for l in &run.log {
+                    println!("{l}");
+                }
             }
+            let mut seen = vec![];
+            for (key, what) in &run.fails {
+                if !seen.contains(key) {
+                    seen.push(key.clone());
+                    println!("STRUCTS-FAIL case=0 seed={cs} key={key} {what}");
+                }
+            }
+            println!("STRUCTS-SUMMARY cases=1 failures={} by_key: {}", u8::from(!run.fails.is_empty()), if seen.is_empty() { "-".to_string() } else { seen.join(" ") });
+        }
+        "demo-unwind" => {
+            // Reproducer for the observation recorded in DESIGN.md B.8: an execution aborted by a panic AFTER an
+            // identity-changed update leaves the old generation in the creator's memo; the retry hands it out again.
+            let mk = Mk { ty: 0, cond: None, rep: None, k: Ex::In(0), kstride: 0, a: Ex::C(0), b: Ex::C(0), call: true, readback: 0 };
+            let prog = Prog {
+                ni: 1,
+                hmod: 1,
+                creators: vec![Creator { lru: false, steps: vec![Step::Mk(mk)] }],
+                on_ts: OnTs { reads_in: None, nested: None, call_on_us: false },
+                readers: vec![Reader { creator: 0, fields: 4, call: false }],
+            };
+            // reader = identity field k of the struct = input 0; the second tick_body (inside on_ts) panics
+            let ops = vec![Op::GetR(0), Op::Set(0, 1, None), Op::InjectBody(2), Op::GetR(0), Op::GetR(0)];
+            let case = Case { prog, init: vec![(0, 0)], ops };
+            for l in run_case(&case, 0, 0, None).lines {
+                if l.starts_with("note t0 op") || l.starts_with("note t0 caught") || l.starts_with("note t0 result") || l.starts_with("ts update") || l.starts_with("ts new") {
+                    println!("{l}");
+                }
+            }
+            println!("expected: the last `result reader` is 1 (input 0 = 1); a from-scratch database returns 1");
         }
         _ => {
             eprintln!("usage: structs run --seed S --cases N --trace-file F | structs one --case-seed X");
